@@ -3,10 +3,39 @@
 
 See checks/anzcommon.py: abstract programs from the TLA+ machine spec of the analyser
 (spec/analyzer/Analyzer.tla) are replayed into the real crates and compared with the model's prediction.
+
+Wider grammar (the second and third clause of C03's quantifier): the real analysis is run on every corpus /
+mutated / token-soup text and every TLC-generated program of the reference grammar (RefGrammar/GrammarCases:
+all operators, literals, blocks, arrays, statement kinds) that parses without any diagnostic.  A panic is a
+violation (attributed to its site); the symbol-table operations the analysis performs are recorded inside
+SymbolTable and validated by TLC against AnalyzerSymTrace.tla, whose "done" step requires that only the global
+scope is open when the analysis returns (see checks/symtrace.py).
 """
 import os, sys
 sys.path.insert(0, os.path.dirname(os.path.abspath(__file__)))
 from anzcommon import *
+import symtrace
+
+
+def wide(c):
+    summ, rej, tr = symtrace.record_and_validate(c)
+    seen = set()
+    for p in sorted(summ["panics"], key=lambda p: len(p["text"])):
+        func, msg = symtrace.panic_key(p)
+        if (func, msg) in seen:
+            continue
+        seen.add((func, msg))
+        c.report({"kind": "panic_wide", "what": f"semantic analysis panicked on a program that parses without diagnostics: {msg[:120]}", "site": func, "msg": msg, "text": p["text"], "panic": p["panic"]})
+    if rej:
+        if rej["ev"].get("ev") == "done" or rej["ev"].get("ev") == "exit":
+            c.report({"kind": "scope_discipline", "what": "the analysis left a scope open (or exited the global scope): AnalyzerSymTrace rejects the record", "site": "", "msg": json.dumps(rej["ev"]), "text": rej["text"], "state": rej["state"]})
+        else:
+            c.notes.append("AnalyzerSymTrace rejected a symbol-table answer (C19's concern, reported there): " + json.dumps(rej["ev"])[:200])
+    c.cov["wide_grammar"] = {"inputs": summ["inputs"], "syntax_clean_programs_analysed": summ["analysed"], "skipped_with_syntax_diagnostics": summ["skipped_syntax"],
+                             "panicking_programs": len(summ["panics"]), "distinct_panic_sites": len(seen),
+                             "symtab_records_validated": (tr.distinct - 1) if tr.ok else 0}
+    c.cov["traces_validated_against_impl"] = c.cov.get("traces_validated_against_impl", 0) + summ["analysed"]
+    c.assumptions.append("wider grammar: corpus + mutations + token soup that parse cleanly, and every GrammarCases program; texts with include other than stdgates.inc are left to C18; analyses with > 400 symbol-table operations are not recorded")
 
 if __name__ == "__main__":
-    main_guard(lambda: main_for("C03", "model_checking"))
+    main_guard(lambda: main_for("C03", "model_checking", extra=wide))
